@@ -36,11 +36,9 @@ var errInvalidWebDIDURL = errors.New("URL does not represent a Web DID")
 // - https://localhost:3000/alice -> did:web:localhost%3A3000:alice
 // - https://nodeA/iam/5/ -> did:web:nodeA:iam:5
 func URLToDID(u url.URL) (*did.DID, error) {
-	path := u.Path
-	if u.RawPath != "" {
-		// In case the path contains encoded characters, RawPath must be used. But it's only populated in this case.
-		path = u.RawPath
-	}
+	// The escaped form of the path must be used: u.Path is decoded, and u.RawPath is only populated when the
+	// path's encoding is not the default one (for /a%20b it is empty, the identifier would contain a space).
+	path := u.EscapedPath()
 	path, _ = strings.CutSuffix(path, "/.well-known/did.json")
 	path, _ = strings.CutSuffix(path, "/did.json")
 	parts := strings.Split(path, "/")
